@@ -254,6 +254,26 @@ PROPS = {
                         'rule-violated:str-not-nul-terminated', 'rule-violated:str-embedded-nul', 'rule-violated:imprint-length-mismatch', 'rule-violated:imprint-unknown-algorithm', 'rule-violated:legacy-id-length'],
   'assumptions': ['certificate and PKCS#7 DER content is not judged by the reference (undecided cases are counted)', 'only the generated inputs are covered'],
  },
+ 'C18': {
+  'technique': 'model-based property testing (rapidcheck) of generated record sequences signed with a test CA (OpenSSL directly), constraint/anchor configurations and lookups against a reference scan, plus exhaustive single-byte tampering of small signed files',
+  'level_text': 'Record sequences (header / certificate / publication / signature / unknown records of either criticality; deletions, duplicates, reorderings, trailing records) are built, '
+                'signed with a fixed test PKI (two roots, an intermediate, four signers) over the exact or a deliberately inexact range, and parsed: acceptance is compared with the reference '
+                'schema evaluator, the reported signed length with the offset of the signature record, and the trust decision with what follows from the construction (exact range, chain to a '
+                'configured anchor, non-empty constraint list that matches exactly; constraint values: exact / proper prefix / suffix / extended / empty / case-changed / other signer / absent attribute; '
+                'constraints on the context, on the file, on both, nowhere). Every single-byte change (3 masks) of the signed range and of the signature value of small signed files is enumerated '
+                'exhaustively and must never leave the file trusted. Lookups (by time, nearest, latest with and without bound, find, certificate by id) are compared with a reference scan over '
+                'random publication sets with ties, boundary times up to 2^64-1 and empty sets.',
+  'level_note': 'Trusted: OpenSSL for producing the PKCS#7 signatures and certificates, ref/schema.cpp, the scan in harness/C18.cpp. Certificate expiry is not exercised (fixture validity 2000..2099). '
+                'Which constraint list applies when the file-specific list is empty while the context has one is not stated by the property and is not asserted.',
+  'rule': 'inputs: (record sequence with edits, signer, certificate bag, anchor set, constraint placement and values, signed-range choice) | (publication set, certificate ids, queries) | '
+          '(small signed file, byte position, mask). Non-trivial = every structure/trust and byte-change case; lookup cases with at least one record. distinct = distinct descriptor.',
+  'quick': {'cases': 24000, 'max_size': 300, 'exhaustive': True, 'wall_s': 900},
+  'thorough': {'cases': 400000, 'max_size': 400, 'exhaustive': True, 'wall_s': 3400},
+  'essential_classes': ['mode:structure-and-trust', 'mode:lookup', 'mode:byte-change', 'expect:trusted', 'expect:not-trusted', 'expect:parse-refused', 'signed-range:inexact', 'chain:not-anchored',
+                        'constraints:none', 'constraints:mismatch', 'constraint:proper-prefix', 'constraint:empty', 'constraint:extended', 'flip:signed-range', 'flip:signature-value', 'flip:still-parses',
+                        'lookup:ties', 'nearest:hit', 'nearest:miss', 'by-time:hit', 'cert-by-id:hit', 'cert-by-id:miss', 'rule-violated:element-after-signature', 'rule-violated:section-out-of-order'],
+  'assumptions': ['certificate validity periods are not varied', 'only the generated inputs are covered'],
+ },
 }
 
 # properties without a check, with the reason (kept current)
